@@ -155,7 +155,8 @@ Bracket OneDimensionOptimizationTools::inwardBracketMinimum(
   jump = (b - a) / static_cast<double>(intervalsNum); // Determine the spacing appropriate to the mesh.
   for (size_t i = 1; i <= intervalsNum; i++)
   { // Loop over all intervals
-    curr += jump;
+    // No accumulation of rounding errors: the last point is b itself, never beyond it.
+    curr = (i == intervalsNum) ? bracket.b.x : a + static_cast<double>(i) * jump;
     parameters[0].setValue(curr); fcurr = function.f(parameters);
     // If c yields better likelihood than a and b
     if (fcurr < bestMiddleF)
